@@ -1578,6 +1578,13 @@ class Interp:
                 return Const(_CMPFN[name](l.v, r.v))
             except Exception:  # noqa
                 pass
+        if name in ("lt", "lte", "gt", "gte") and isinstance(l, ListV) and isinstance(r, ListV) and l.kind == r.kind and l.kind in ("tuple", "list") \
+                and all(isinstance(x, Const) for x in l.items + r.items):
+            # ordering of sequences of constants (python's lexicographic order)
+            try:
+                return Const(_CMPFN[name](tuple(x.v for x in l.items), tuple(x.v for x in r.items)))
+            except Exception:  # noqa
+                pass
         return App(name, (l, r))
 
     def identity(self, l, r):
